@@ -284,9 +284,13 @@ def ev(e):
         digs = "0123456789ABCDEFGHIJKLMNOPQRSTUVWXYZ"
         if any(c not in digs for c in body):
             return ("err", "parse")
-        if any(digs.index(c) >= base for c in body) or base == 1 or body == "" or (s.startswith("-") and int(body, base) == 0):
+        # C09_from_string_any_text: the Horner value of the digits, whatever the base (digits at or above the base, base 1,
+        # leading zeros and the empty body included); "-0...0" gives a negative zero, which is not a normal form
+        v = 0
+        for c in body:
+            v = v * base + digs.index(c)
+        if s.startswith("-") and v == 0:
             raise Undefined()
-        v = int(body, base)
         return -v if s.startswith("-") else v
     # ---- rationals
     if t == "N":
